@@ -567,6 +567,53 @@ def statement_forms(ctx):
                               {"native": [want, repr(wexc)[:80]], "template": [got, repr(exc)[:80]]}, "oracle.statement_forms")
 
 
+def entry_calls(t, name, loop_enabled):
+    """every way of handing the name `name` to a render entry point of template `t` (a def `f` exists)"""
+    from mako.template import Template
+    from mako.lookup import TemplateLookup
+    from mako.runtime import Context
+    from mako import util
+    nested_tmpl = Template("<% inner.render_context(context, **kw) %>")
+
+    def reused(target):
+        c = Context(util.FastEncodingBuffer())
+        t.render_context(c)
+        target.render_context(c, **{name: 1})
+
+    def include_with(via_namespace):
+        lk2 = TemplateLookup(enable_loop=loop_enabled)
+        lk2.put_string("/inc.html", "inc")
+        lk2.put_string("/m.html", ("<%% local.include_file('/inc.html', %s=1) %%>" if via_namespace
+                                   else "<%%include file=\"/inc.html\" args=\"%s=1\"/>") % name)
+        return lk2.get_template("/m.html").render()
+    return {
+        "render": lambda: t.render(**{name: 1}),
+        "render_unicode": lambda: t.render_unicode(**{name: 1}),
+        "render_context": lambda: t.render_context(Context(util.FastEncodingBuffer(), **{name: 1})),
+        "def.render": lambda: t.get_def("f").render(**{name: 1}),
+        "def.render_unicode": lambda: t.get_def("f").render_unicode(**{name: 1}),
+        "def.render_context": lambda: t.get_def("f").render_context(Context(util.FastEncodingBuffer(), **{name: 1})),
+        "render_context-kwargs": lambda: t.render_context(Context(util.FastEncodingBuffer()), **{name: 1}),
+        "def.render_context-kwargs": lambda: t.get_def("f").render_context(Context(util.FastEncodingBuffer()), **{name: 1}),
+        # a Context that has been rendered into before (its _with_template is set)
+        "render_context-kwargs-reused": lambda: reused(t),
+        "def.render_context-kwargs-reused": lambda: reused(t.get_def("f")),
+        # render_context(context, …) called from inside a running template, on that template's own context
+        "render_context-kwargs-nested": lambda: nested_tmpl.render(inner=t, kw={name: 1}),
+        "def.render_context-kwargs-nested": lambda: nested_tmpl.render(inner=t.get_def("f"), kw={name: 1}),
+        # <%include args="NAME=1"/> and Namespace.include_file(uri, NAME=1)
+        "include-args": lambda: include_with(False),
+        "include_file-kwargs": lambda: include_with(True),
+    }
+
+
+def entry_template(el):
+    from mako.template import Template
+    if el == "page":
+        return Template("<%page enable_loop=\"True\"/>x<%def name=\"f()\">F</%def>", enable_loop=False)
+    return Template("x<%def name=\"f()\">F</%def>", enable_loop=el)
+
+
 # --------------------------------------------------------------------------- reserved names
 
 def reserved_names(ctx):
@@ -621,22 +668,13 @@ def reserved_names(ctx):
     lk.put_string("/e.html", "x<%def name=\"f()\">F</%def>")
     reqs, metas = [], []
     for el in (True, False, "page"):
-        if el == "page":
-            t = Template("<%page enable_loop=\"True\"/>x<%def name=\"f()\">F</%def>", enable_loop=False)
-        else:
-            t = Template("x<%def name=\"f()\">F</%def>", enable_loop=el)
+        t = entry_template(el)
         for name in names + ["plain"]:
-            entries = {
-                "render": lambda: t.render(**{name: 1}),
-                "render_unicode": lambda: t.render_unicode(**{name: 1}),
-                "render_context": lambda: t.render_context(Context(util.FastEncodingBuffer(), **{name: 1})),
-                "def.render": lambda: t.get_def("f").render(**{name: 1}),
-                "def.render_unicode": lambda: t.get_def("f").render_unicode(**{name: 1}),
-                "def.render_context": lambda: t.get_def("f").render_context(Context(util.FastEncodingBuffer(), **{name: 1})),
-                "render_context-kwargs": lambda: t.render_context(Context(util.FastEncodingBuffer()), **{name: 1}),
-            }
+            entries = entry_calls(t, name, el is not False)
             for ename, fn in entries.items():
-                if ename == "render_context-kwargs" and name == "context":
+                if ename.startswith("include") and el == "page":
+                    continue
+                if name == "context" and ("kwargs" in ename or ename.startswith("include")):
                     # `render_context(self, context, *args, **kwargs)`: Python itself refuses a second `context`
                     # (TypeError) - the name cannot reach the keyword arguments at all
                     ctx.branch("entry:render_context-kwargs:context-is-a-parameter")
@@ -652,17 +690,22 @@ def reserved_names(ctx):
                 so["cases"] += 1
                 ctx.branch("entry:%s:%s" % (ename, "conflict" if got else "other"))
                 if reserved_now and not got:
-                    site = ("render_context-kwargs-not-checked" if ename == "render_context-kwargs" and el != "page" else
-                            "loop-enabled-by-page-not-reserved" if el == "page" else "reserved-name-accepted-at:" + ename)
+                    site = ("loop-enabled-by-page-not-reserved" if el == "page" else
+                            "include-args-reserved-not-checked" if ename.startswith("include") else
+                            "render_context-kwargs-not-checked:" + ename if "kwargs" in ename else "reserved-name-accepted-at:" + ename)
                     violation(ctx, site, {"input": name, "entry": ename, "enable_loop": str(el)},
                                   "expected NameConflictError, got %s" % (type(exc).__name__ if exc else "a rendering"), "oracle.render_entries")
                 if not reserved_now and got:
                     violation(ctx, "free-name-rejected-at:" + ename, {"input": name, "entry": ename, "enable_loop": str(el)}, str(exc)[:100],
                                   "oracle.render_entries")
                 # model
-                kw = ename == "render_context-kwargs"
-                reqs.append("names entry %s %d 1 %s %s" % ("render_context" if kw else ename, 0 if el is False or el == "page" else 1,
-                                                            "_" if kw else Mo.enc_names([name]), Mo.enc_names([name]) if kw else "_"))
+                if ename.startswith("include"):
+                    continue        # runtime._include_file is not a render entry point of the model
+                kw = "kwargs" in ename
+                fresh = not (ename.endswith("-reused") or ename.endswith("-nested"))
+                mentry = ("def.render_context" if ename.startswith("def.") else "render_context") if kw else ename
+                reqs.append("names entry %s %d %d %s %s" % (mentry, 0 if el is False or el == "page" else 1, 1 if fresh else 0,
+                                                             "_" if kw else Mo.enc_names([name]), Mo.enc_names([name]) if kw else "_"))
                 metas.append((ename, name, str(el), got, str(exc)))
     for (ename, name, el, got, msg), o in zip(metas, ask_many(ctx, reqs)):
         sc["cases"] += 1
@@ -954,22 +997,12 @@ def replay(ctx, data):
     sub = type(ctx)(ctx.pid, "quick", data.get("seed", 0))
     if isinstance(case, dict) and "entry" in case:
         # a reserved name at a render entry point
-        from mako.template import Template
-        from mako.runtime import Context
-        from mako import exceptions as X, util
+        from mako import exceptions as X
         el = case.get("enable_loop", "True")
-        t = Template("<%page enable_loop=\"True\"/>x<%def name=\"f()\">F</%def>", enable_loop=False) if el == "page" \
-            else Template("x<%def name=\"f()\">F</%def>", enable_loop=(el == "True"))
-        name, e = case["input"], case["entry"]
+        elv = "page" if el == "page" else (el == "True")
+        fn = entry_calls(entry_template(elv), case["input"], elv is not False)[case["entry"]]
         try:
-            tgt = t.get_def("f") if e.startswith("def.") else t
-            m = e.split(".")[-1]
-            if m == "render_context-kwargs":
-                t.render_context(Context(util.FastEncodingBuffer()), **{name: 1})
-            elif m == "render_context":
-                tgt.render_context(Context(util.FastEncodingBuffer(), **{name: 1}))
-            else:
-                getattr(tgt, m)(**{name: 1})
+            fn()
             print("rendered without NameConflictError")
             return False
         except X.NameConflictError as ex:
